@@ -321,7 +321,7 @@ def run(ctx):
     if broken and not ctx.violations:
         ctx.broken_obligations_verdict(broken, "sample correspondence streams (six configurations) and the Spec oracle found no failing input")
     ctx.assumptions += [
-        "narrow (8 bit per channel) pipeline only: a8r8g8b8 destination, OP_SRC, no mask, no alpha map, no accessors; the float fetchers are not modelled",
+        "narrow (8 bit per channel) pipeline only: a8r8g8b8 destination, OP_SRC, no mask, no alpha map, no accessors; the float fetchers are not modelled (their bilinear single-pixel reader is judged by a spec oracle only: rgba_float sources under translations, every repeat mode, against the exact bilinear formula within 1e-5; harness/sample.c gen_float_bilinear)",
         "theorems about positions carry range hypotheses (no int32 wrap of the stepped 16.16 coordinate); the wrap itself is modelled and compared",
         "kernels: channel sums stay below 2^31 in magnitude in generated cases (|coefficient| <= 2^18, at most 25 taps); beyond that the signed accumulators of the fast path are undefined behaviour in C",
         "SIMD loop structure (head/body/tail) is validated only by the correspondence over widths 1..24",
